@@ -170,7 +170,7 @@ void JunctionRef::outputCode(FILE *fp) const
 void JunctionRef::moveAttachedConns(const Point& newPosition)
 {
     // Update positions of attached connector ends.
-    for (std::set<ConnEnd *>::iterator curr = m_following_conns.begin();
+    for (ConnEndPtrSet::iterator curr = m_following_conns.begin();
             curr != m_following_conns.end(); ++curr)
     {
         ConnEnd *connEnd = *curr;
@@ -194,7 +194,7 @@ ConnRef *JunctionRef::removeJunctionAndMergeConnectors(void)
         return nullptr;
     }
 
-    std::set<ConnEnd *>::iterator curr = m_following_conns.begin();
+    ConnEndPtrSet::iterator curr = m_following_conns.begin();
     ConnEnd *connEnd1 = *curr;
     ++curr;
     ConnEnd *connEnd2 = *curr;
